@@ -1583,7 +1583,7 @@ func genConnScenarios(ctx *Ctx) [][]*connScen {
 	//     (the other goroutines finish their reaction to the close first), and unconditional stalls
 	//     of whoever arrives at a yield point
 	pts := []string{"beforeSend", "sendLoaded", "writeBeforeErr", "readBeforeRx", "afterCancel"}
-	for rep := 0; rep < ctx.N(3, 10); rep++ {
+	for rep := 0; rep < ctx.N(2, 10); rep++ {
 		for _, m := range []string{"g", "gg", "gb"} {
 			for _, pt := range pts {
 				sc := &connScen{Msgs: m, Rd: -1, Cl: "p:" + pt, HkOK: true, BadV: k, RelMs: 4 + rep}
@@ -1649,11 +1649,11 @@ func genConnScenarios(ctx *Ctx) [][]*connScen {
 		}
 	}
 	// 4d. truncated messages: part of a header / a header and part of the body, then close or half-close
-	for _, tr := range []int{3, 8, 20, 60} {
-		for _, m := range []string{"", "g", "gg", "gb"} {
+	for ti, tr := range []int{3, 8, 20, 60} {
+		for mi, m := range []string{"", "g", "gg", "gb"} {
 			for _, half := range []bool{false, true} {
 				for _, cl := range []string{"q", "sent", "w1"} {
-					if !ctx.Thor && (cl == "w1" && half) {
+					if !ctx.Thor && ((cl == "w1" && half) || (ti+mi)%2 == 1) {
 						continue
 					}
 					sc := &connScen{Msgs: m, Rd: -1, Cl: cl, Half: half, HkOK: true, Trunc: tr, BadV: k}
@@ -1756,7 +1756,7 @@ func runLtsSrv(ctx *Ctx) {
 		j.Idx = len(jobs)
 		jobs = append(jobs, j)
 	}
-	results := runJobs(jobs, ctx.N(6, 8), 8*time.Second)
+	results := runJobs(jobs, 8, 8*time.Second)
 	seenLine := map[string]bool{}
 	points := map[string]int{}
 	unresolved := 0
